@@ -90,7 +90,9 @@ class Ctx:
         shared = [(k, mod) for k, mod, users in (("ORACLE", "Oracle", SC_ORACLE_USERS), ("REFINE", "Refine", REFINE_USERS),
                                                  ("DEADLOCK", "Deadlock", {"C05"}),
                                                  ("REFINE2", "Refine2", {"C08", "C09"}),
-                                                 ("RACE", "Race", {"C04"}))
+                                                 ("RACE", "Race", {"C04"}),
+                                                 ("DEADLOCK2", "Deadlock2", {"C05"}),
+                                                 ("REFINE3", "Refine3", {"C10", "C11"}))
                   if pid in users]
         table = json.load(open(os.path.join(lvlib.VERIF, "checks", "theorems.json")))
         theorems = list(theorems)
